@@ -58,7 +58,10 @@ def main():
             failed_stable = []
             ran = 0
             for c in crates:
-                rc, out = sh(["cargo", "test", "--offline", "-p", c, "--no-fail-fast"], cwd=wt)
+                cmd = ["cargo", "test", "--offline", "-p", c, "--no-fail-fast"]
+                if c == "statime-csptp":   # does not build alone (ntp-proto dep without crypto feature)
+                    cmd = ["cargo", "test", "--offline", "-p", "statime-csptp", "-p", "ntp-proto", "--lib", "--no-fail-fast"]
+                rc, out = sh(cmd, cwd=wt)
                 crate_us = c
                 for m in re.finditer(r"^test (\S+) \.\.\. (ok|FAILED)", out, flags=re.M):
                     name = "%s::%s" % (crate_us, m.group(1))
